@@ -210,6 +210,38 @@ def stat_run(spec):
             stat, p2 = chi2_p(pairs, np.full(4, n / 4))
             check(p2 >= P_REJECT, 'two measurement coins not independent/fair: %s (p=%.3g)' % (pairs.tolist(), p2), 'coin-unfair')
         return {'cells': 4, 'chi2': 0.0, 'p': p, 'distinct': set(range(4))}
+    if what == 'coin-mixed':
+        # coins of random outcomes on *mixed* states (rank-reducing and non-reducing branches, every pivot position)
+        import pyclifford as pc
+        rs = np.random.RandomState(seed)
+        nconf = spec.get('configs', 40)
+        per = max(200, n // nconf)
+        worst = (1.0, None)
+        done = 0
+        for ci in range(nconf * 4):
+            if done >= nconf:
+                break
+            word = rs.randint(0, ref.alphabet_size(N), size=rs.randint(0, 4 * N)).tolist()
+            c = ref.clifford_from_word(N, word, rs.randint(0, 2, 2 * N).tolist())
+            r = int(rs.randint(1, N + 1))
+            L, K = B.tableau_rows(c)
+            G = ref.RefGroup(L[r:N], K[r:N])
+            ol = rs.randint(0, 4, size=N); ok = 2 * int(rs.randint(0, 2))
+            if G.contains(ol, ok) != 0 or not ol.any():
+                continue                    # determined outcome: not a coin
+            done += 1
+            obs = B.np_list(ol[None, :], [ok])
+            ones = 0
+            for _ in range(per):
+                S = B.np_state(c, r)
+                out, l2p = S.measure(obs)
+                ones += int(out[0])
+            pv = binom_p(ones, per)
+            distinct.add(ci)
+            if pv < worst[0]:
+                worst = (pv, 'state rows %s r=%d, observable %s: outcome 1 seen %d of %d times' % (ref.show_list(L[:N], K[:N]), r, ref.show(ol, ok), ones, per))
+            check(pv >= P_REJECT, 'measurement coin on a mixed state is not fair: %s (p=%.3g)' % (worst[1], pv), 'coin-unfair')
+        return {'cells': 2 * done, 'chi2': 0.0, 'p': worst[0], 'distinct': distinct}
     if what == 'resample':
         # a gate without maps draws a fresh map at every call: consecutive images of Z on one qubit are independent and uniform over +-X,+-Y,+-Z
         cm = Bk.mods()['c']
@@ -263,11 +295,11 @@ def make_stat_facet(name, be, specs_quick, specs_thorough):
 
 NPQ = [{'what': 'clifford', 'N': 1, 'n': 24000}, {'what': 'clifford-signed', 'N': 1, 'n': 24000}, {'what': 'clifford', 'N': 2, 'n': 72000},
        {'what': 'pauli-map', 'N': 1, 'n': 12000}, {'what': 'pauli-map', 'N': 2, 'n': 40000}, {'what': 'pair', 'N': 1, 'n': 6000}, {'what': 'pair', 'N': 2, 'n': 24000},
-       {'what': 'signs', 'N': 2, 'n': 10000}, {'what': 'bitstate', 'N': 3, 'n': 10000}, {'what': 'coin', 'N': 2, 'n': 20000}, {'what': 'resample', 'N': 1, 'n': 10000}]
+       {'what': 'signs', 'N': 2, 'n': 10000}, {'what': 'bitstate', 'N': 3, 'n': 10000}, {'what': 'coin', 'N': 2, 'n': 20000}, {'what': 'coin-mixed', 'N': 3, 'n': 12000}, {'what': 'coin-mixed', 'N': 2, 'n': 8000}, {'what': 'resample', 'N': 1, 'n': 10000}]
 NPT = [{'what': 'clifford', 'N': 1, 'n': 240000}, {'what': 'clifford-signed', 'N': 1, 'n': 240000}, {'what': 'clifford', 'N': 2, 'n': 1500000},
        {'what': 'clifford-signed', 'N': 2, 'n': 1200000}, {'what': 'clifford', 'N': 2, 'n': 1500000}, {'what': 'clifford-signed', 'N': 2, 'n': 1200000},
        {'what': 'pauli-map', 'N': 1, 'n': 120000}, {'what': 'pauli-map', 'N': 2, 'n': 600000}, {'what': 'pair', 'N': 1, 'n': 60000}, {'what': 'pair', 'N': 2, 'n': 240000},
-       {'what': 'pair', 'N': 3, 'n': 500000}, {'what': 'signs', 'N': 3, 'n': 100000}, {'what': 'bitstate', 'N': 4, 'n': 100000}, {'what': 'coin', 'N': 2, 'n': 400000},
+       {'what': 'pair', 'N': 3, 'n': 500000}, {'what': 'signs', 'N': 3, 'n': 100000}, {'what': 'bitstate', 'N': 4, 'n': 100000}, {'what': 'coin', 'N': 2, 'n': 400000}, {'what': 'coin-mixed', 'N': 2, 'n': 200000, 'configs': 200}, {'what': 'coin-mixed', 'N': 3, 'n': 300000, 'configs': 300}, {'what': 'coin-mixed', 'N': 4, 'n': 300000, 'configs': 300},
        {'what': 'resample', 'N': 1, 'n': 200000}]
 TQ = [{'what': 'clifford', 'N': 1, 'n': 6000}, {'what': 'clifford', 'N': 2, 'n': 14400}, {'what': 'pauli-map', 'N': 2, 'n': 12000}, {'what': 'pair', 'N': 2, 'n': 6000}]
 TT = [{'what': 'clifford', 'N': 1, 'n': 60000}, {'what': 'clifford', 'N': 2, 'n': 200000}, {'what': 'clifford-signed', 'N': 1, 'n': 60000},
@@ -277,7 +309,7 @@ NP_KINDS = ['clifford_map', 'pauli_map', 'clifford_state', 'pauli_state', 'bit_s
 T_KINDS = ['clifford_map', 'pauli_map', 'clifford_state', 'pauli_state', 'brickwall', 'onsite', 'global']
 
 _np_stat = make_stat_facet('np/uniformity', 'np', NPQ, NPT)
-_np_stat.shards = {'quick': 6, 'thorough': 15}
+_np_stat.shards = {'quick': 7, 'thorough': 16}
 _t_stat = make_stat_facet('torch/uniformity', 'torch', TQ, TT)
 _t_stat.shards = {'quick': 4, 'thorough': 6}
 
